@@ -119,6 +119,9 @@ def instances(r):
     n = tasks.gen_transcription(r)
     if len(n["ref_iv"]) and len(n["est_iv"]):
         kw = tasks.draw_params(r, tasks.TRANS_PARAMS)
+        d_ev = d
+        if r.random() < 0.15:
+            d = 2.0 ** 20  # a recording cut out of a very long stream; exact on the lattice
         a4 = (n["ref_iv"], n["ref_p"], n["est_iv"], n["est_p"])
         s4 = (n["ref_iv"] + d, n["ref_p"], n["est_iv"] + d, n["est_p"])
         nt = ("notes", n["ref_iv"], n["est_iv"], d) if len(n["ref_iv"]) >= 3 else None
@@ -142,6 +145,7 @@ def instances(r):
                         (n["ref_iv"], n["est_iv"]), (n["ref_iv"][pr], n["est_iv"][pe]),
                         {k: v for k, v in kw.items() if k in ("onset_tolerance", "strict")},
                         "note permutation", None))
+        d = d_ev
     # multipitch: shift and within-frame permutation
     m = tasks.gen_multipitch(r)
     a = (m["ref_time"], m["ref_freqs"], m["est_time"], m["est_freqs"])
@@ -175,7 +179,7 @@ def instances(r):
     # patterns: onset shift, reference-list permutation
     p = tasks.gen_pattern(r) if r.random() < 0.7 else tasks.gen_pattern_doubled(r)
     if p["ref"] and p["est"]:
-        dq = r.choice([0.25, 1.0, 16.0, 1024.0])
+        dq = r.choice([0.25, 1.0, 16.0, 1024.0, 2.0 ** 20])
         def sh(pats):
             return [[[(t + dq, mm) for t, mm in occ] for occ in pat] for pat in pats]
         perm = list(range(len(p["ref"]))); r.shuffle(perm)
